@@ -56,6 +56,7 @@ static int             ev_n;
 static int             sends, pending;
 static void           *pending_arg;
 static int             stop_reason;      /* why the walk legitimately stopped before the end of the lookups string */
+static int             terminal_ev_n = -1, terminal_status = -1; /* a DNS completion that must end the walk: methods tried so far, status */
 static int             sync_completed;
 static struct hostent *g_host;           /* host entry produced for the outer request */
 static int             host_from;        /* 'b' / 'f' */
@@ -161,7 +162,7 @@ ares_status_t ares_query_nolock(ares_channel_t *channel, const char *name, ares_
     if (!nested) {
       sync_completed = 1;
       timeouts_sum  += (int)t;
-      if (st == ARES_ECANCELLED || st == ARES_EDESTRUCTION) stop_reason = 2;
+      if (st == ARES_ECANCELLED || st == ARES_EDESTRUCTION) { stop_reason = 2; terminal_ev_n = ev_n; terminal_status = (int)st; }
     }
     addr_callback(arg, st, t, NULL);
     return st;
@@ -172,7 +173,11 @@ ares_status_t ares_query_nolock(ares_channel_t *channel, const char *name, ares_
     VP_ASSUME(resp != NULL);
     if (!nested) {
       sync_completed = 1;
-      if (st == ARES_SUCCESS || st == ARES_ECANCELLED || st == ARES_EDESTRUCTION) stop_reason = 2;
+      if (st == ARES_SUCCESS || st == ARES_ECANCELLED || st == ARES_EDESTRUCTION) {
+        stop_reason   = 2;
+        terminal_ev_n = ev_n;
+        if (st != ARES_SUCCESS) terminal_status = (int)st;
+      }
     }
     addr_callback(arg, st, 0, resp);
     ares_dns_record_destroy(resp);
@@ -272,6 +277,13 @@ static void check_order(const char *lk, size_t from)
   for (i = 0; i < n; i++)
     if (i < (size_t)ev_n) VP_ASSERT(ev[i] == lk[from + i], "methods are tried in the order of the lookups string");
   if (pending) VP_ASSERT(ev_n > 0 && ev[ev_n - 1] == 'b' && user_cb_count == 0, "pending: the last method tried is the DNS request");
+  if (terminal_ev_n >= 0) {
+    VP_ASSERT(ev_n == terminal_ev_n && sends == 1 && user_cb_count == 1, "an answer or cancel/destroy ends the lookup: no further method is tried");
+    if (terminal_status >= 0) {
+      VP_ASSERT(user_status == terminal_status, "cancel/destroy is reported with that status");
+      VP_WITNESS("cancelled or destroyed synchronously");
+    }
+  }
   if (user_cb_count == 1 && stop_reason == 0 && parse_calls == 0) {
     VP_ASSERT((size_t)ev_n == n, "the lookup only gives up after every configured method was tried");
     VP_ASSERT(user_status == ARES_ENOTFOUND, "all methods exhausted: ARES_ENOTFOUND");
